@@ -45,6 +45,14 @@ prop('C06', 'proof',
      'Close/reopen, flush, compact, block table, listfile/attributes rewriting, file data placement are file-system histories and NOT under contract. The statement selecting the cached table (Option::or_else / as_mut with closures) is replaced by a trusted accessor (E12). Block units verify only the extracted statements, not that the caller passes the index returned by find_file_entry.',
      ['modification.rs: open, add_file, add_file_data (except the tombstone statement), remove_file/rename_file (except the tombstone statement), compact, flush, ensure_tables_loaded, prepare_file_data, update_listfile, write tables'])
 
+
+prop('C08', 'proof',
+     'Verus control-flow contract on extracted apply_patch / apply_copy_patch (MD5 uninterpreted); Kani harnesses on E11 statement blocks of apply_bsd0_patch and of the chain ordering',
+     'Partial. Proved unbounded (Verus): apply_patch returns Ok(r) only if md5(base) equals the declared before-digest and md5(r) equals the declared after-digest - never unverified bytes - for both patch types, with the COPY/BSD0 appliers opaque; apply_copy_patch returns exactly the payload and only when both declared sizes match. Kani complete: BSD0 block-position arithmetic for all 64-bit header values (F5 repaired). Kani bounded: BSD0 control loop totality (50-byte buffer); insertion index of add_archive / add_archives_parallel / set_priority keeps the chain descending with earliest-added-wins ties (chain length <= 4); from_archives_parallel ordering is descending and stable (3 archives). RLE layer: U03.codecs.',
+     'verify_base / verify_patched are trusted to compare the md-5 digest with the header field (their bodies call the md-5 crate). Block units verify only the extracted statements. Lookup/list/remove over real archives, rebuild_file_map (HashMap + Archive::list), parallel loading: file-system histories, not under contract.',
+     ['patch_chain.rs: rebuild_file_map, read_file, read_patched_file, list, remove_archive, from_archives_parallel (except the sort), add_archives_parallel (except the index)',
+      'patch/header.rs: PatchHeader::parse, PatchFile::parse, verify_base, verify_patched (trusted contract)', 'patch/apply.rs: apply_bsd0_patch header parsing through Cursor (only blocks are verified)'])
+
 prop('C18', 'proof',
      'Kani complete harness (loop-free, full finite domain, IEEE-754 bit-precise) on the real crate',
      'world_to_tile(tile_to_world(x,y)) == (x,y) proved for all 64x64 tiles symbolically by CBMC on the real functions compiled in place (F4 repaired).',
